@@ -91,7 +91,7 @@ def generate(G):
         out = G.numel(lead) * m * n
         tot = G.numel(a) + G.numel(b) + (G.numel(c) if c else 0)
         ob("matmul_" + id, "Matmul { at: %s, bt: %s, c: %s }" % (str(at).lower(), str(bt).lower(), str(c is not None).lower()),
-           ls, tier, max(out, tot) + tot + 3, heavy=(tot > 12),
+           ls, tier, max(out, tot) + tot + 3, heavy=True,
            skel={"m": m, "k": k, "n": n, "at": at, "bt": bt, "c": c, "lead_a": list(lead_a), "lead_b": list(lead_b), "tracked": list(tracked)})
 
     mm("2x2x2_nn", 2, 2, 2, False, False, None, "quick")
@@ -132,6 +132,9 @@ def generate(G):
 
     conv("1x2x3_1x1x2x2_s11", [1, 2, 3], [1, 1, 2, 2], (1, 1), "quick")            # overlapping columns
     conv("1x3x3_1x1x2x2_s11_img", [1, 3, 3], [1, 1, 2, 2], (1, 1), "quick", tracked=(True, False))
+    conv("1x1x3_1x1x1x2_s11", [1, 1, 3], [1, 1, 1, 2], (1, 1), "quick", dom="D4")   # overlapping along columns only
+    conv("1x3x1_1x1x2x1_s11", [1, 3, 1], [1, 1, 2, 1], (1, 1), "thorough", dom="D4")   # overlapping along rows only
+    conv("1x3x4_1x1x2x2_s12", [1, 3, 4], [1, 1, 2, 2], (1, 2), "thorough")         # rows overlap, columns do not
     conv("1x2x4_1x1x2x2_s12", [1, 2, 4], [1, 1, 2, 2], (1, 2), "thorough")         # non-overlapping
     conv("1x2x4_1x1x1x2_s13", [1, 2, 4], [1, 1, 1, 2], (1, 3), "thorough")         # uneven fit
     conv("2x2x2_2x2x1x2_s11", [2, 2, 2], [2, 2, 1, 2], (1, 1), "thorough")         # depth 2, 2 filters
